@@ -104,6 +104,12 @@ def run(ctx):
             forms.append(rv["k"])
         else:
             forms.append("%s(%s)" % (rv.callee_q.rsplit("::", 1)[1], expr(ie_, rv.args[0])))
+    # match form: `match self.peek_os(cursor) { Some(_) => false, None => true }` — constant results on the variant edges of the same lookup
+    consts = [(op_int(d[3]["op"]), guard_strs(ie_, d[0])) for d in d_ if isinstance(d[3], dict) and d[3]["k"] == "use" and op_int(d[3]["op"]) in (0, 1)]
+    if len(consts) == len(d_) == 2:
+        for look in ("peek_os(self,cursor)", "get(self.items,cursor.cursor)"):
+            if sorted((v, tuple(g for g in gl if g.endswith(":" + look))) for v, gl in consts) == [(0, ("V1:" + look,)), (1, ("V0:" + look,))]:
+                forms = ["is_none(%s)" % look]
     OKF = {"is_none(peek_os(self,cursor))", "is_none(get(self.items,cursor.cursor))", "Ge(cursor.cursor,len(self.items))", "Le(len(self.items),cursor.cursor)"}
     res.check(len(forms) == 1 and forms[0] in OKF, "R14.1", "is_end", ie_.where(), "is_end = nothing at the cursor (%s)" % forms, "is_end is computed as %s: with the cursor allowed past the end (next_os advances unconditionally) this is not `cursor >= len`" % forms)
 
@@ -141,11 +147,23 @@ def run(ctx):
     # every piece Split::next hands out is decided by split_once alone: first half + keep the rest, or (no needle left) the whole rest + stop
     H_ = "branch(self.haystack)#Continue.0"
     SO = "split_once(%s,self.needle)" % H_
+    pieces = []
     for d in sp.def_sites(0):
         rv = d[3]
         if not (isinstance(rv, dict) and rv["k"] == "agg" and rv.get("variant") == "Some"):
             continue
         piece = expr(sp, rv["ops"][0])
+        m_ = re.fullmatch(r"_(\d+)\.(\d+)", piece)
+        if m_:
+            # `let (item, rest) = if let Some((first, second)) = .. { (first, Some(second)) } else { (haystack, None) }; Some(item)`:
+            # one piece per arm of the tuple expression, judged under that arm's conditions
+            for td in sp.def_sites(int(m_.group(1))):
+                if isinstance(td[3], dict) and td[3]["k"] == "agg" and td[3].get("ak") == "tuple" and len(td[3]["ops"]) > int(m_.group(2)):
+                    pieces.append((td[0], expr(sp, td[3]["ops"][int(m_.group(2))])))
+        else:
+            pieces.append((d[0], piece))
+    for bb_, piece in pieces:
+        d = (bb_,)
         gl = guard_strs(sp, d[0])
         extra = [g for g in gl if not re.match(r"^(V0:branch\(self\.haystack\)|!?V[01]:split_once\()", g)]
         if piece.startswith(SO + "#Some.0.0"):
